@@ -3,6 +3,7 @@ placeholder-binding / counter-encoding clauses over the journaler's SQL text (E7
 from __future__ import annotations
 
 import ast
+import re
 
 from sa import journal
 from sa.core import AnalysisError, loc, short, unparse, walk_no_nested
@@ -278,7 +279,10 @@ def run(ctx):
     appends = [c for c in walk_no_nested(rv.fn) if isinstance(c, ast.Call) and isinstance(c.func, ast.Attribute) and c.func.attr in ("append", "insert", "sort", "reverse")]
     ok = all(c.func.attr == "append" for c in appends) and not any(
         isinstance(c, ast.Call) and unparse(c.func) in ("sorted", "reversed", "set") for c in walk_no_nested(rv.fn))
-    ctx.instance("C13.range-semantics", "recover_messages.result-order", ok and bool(appends), "result list is reordered after the query", loc(rv.fn))
+    # the result is built by appending in cursor order, or is a list comprehension over the cursor / its fetched rows
+    comp = [r_ for r_ in walk_no_nested(rv.fn) if isinstance(r_, ast.Return) and isinstance(r_.value, ast.ListComp) and len(r_.value.generators) == 1
+            and not r_.value.generators[0].ifs and re.fullmatch(r"self\.cursor(\.fetchall\(\))?|\w+", unparse(r_.value.generators[0].iter))]
+    ctx.instance("C13.range-semantics", "recover_messages.result-order", ok and (bool(appends) or bool(comp)), "result list is reordered after the query", loc(rv.fn))
     one = repo.func("Journaler.recover_msg")
     calls = [c for c in walk_no_nested(one) if isinstance(c, ast.Call) and unparse(c.func) == "self.recover_messages"]
     pp = [a.arg for a in one.args.args]
